@@ -317,6 +317,9 @@ class ExecutionState:
         seen: set[str] = set()
         while parent_id and parent_id not in seen:
             seen.add(parent_id)
+            if parent_id in self._done_contexts:
+                # The context completed in this invocation: user code has moved past everything inside it.
+                return True
             parent = operations.get(parent_id)
             if parent is None:
                 return False
@@ -385,6 +388,15 @@ class ExecutionState:
                         operation_id,
                     )
                     self._replay_status = ReplayStatus.NEW
+
+    def _leave_replay_if_history_is_passed(self) -> None:
+        """Transition from REPLAY to NEW status if no completed operation is left to visit."""
+        with self._replay_status_lock:
+            if (
+                self._replay_status == ReplayStatus.REPLAY
+                and self._completed_operation_ids().issubset(self._visited_operations)
+            ):
+                self._replay_status = ReplayStatus.NEW
 
     def is_replaying(self) -> bool:
         """Check if execution is currently in replay mode.
@@ -516,6 +528,7 @@ class ExecutionState:
 
         # Create wrapper object for queue
         queued_op = QueuedOperation(operation_update, completion_event)
+        context_completed: bool = False
 
         # if this is CONTEXT complete, mark incomplete descendants as orphans so the children can't complete after the parent
         if operation_update is not None:
@@ -537,6 +550,7 @@ class ExecutionState:
                 ):
                     self._mark_orphans(operation_update.operation_id)
                     self._done_contexts.add(operation_update.operation_id)
+                    context_completed = True
 
                 # An operation first seen after its parent completed (or after its parent was
                 # orphaned) is not among the descendants marked above: it is an orphan as well.
@@ -566,6 +580,11 @@ class ExecutionState:
                 self._enqueue(queued_op)
         else:
             self._enqueue(queued_op)
+
+        if context_completed:
+            # Completed operations the context left unvisited (e.g. branches skipped by an early
+            # completion) can no longer be visited: they must not keep the execution in replay status.
+            self._leave_replay_if_history_is_passed()
 
         # Conditionally wait for completion based on is_sync parameter
         if is_sync:
